@@ -140,6 +140,23 @@ def replay(p):
         fn = getattr(ST, p['fn'])
         val = fn(p['d'], p['x'])
         return (not np.all(np.isfinite(val))), f"{p['fn']}({p['d']}, {p['x']}) = {val} is not finite"
+    if what == 'finite_scan':
+        # directed: the solver's value first (if any), then the first 400 binary64 values above the separability boundary and a coarse grid
+        fn = getattr(ST, p['fn'])
+        xs = ([p['x']] if p.get('x') is not None else [])
+        a = p['bound']
+        for _ in range(400):
+            xs.append(a)
+            a = float(np.nextafter(a, 2.0))
+        xs += list(np.linspace(p['bound'], 1.0, 101))
+        with np.errstate(all='ignore'):
+            for x_ in xs:
+                if not (p['bound'] <= x_ <= 1.0):
+                    continue
+                val = fn(p['d'], x_)
+                if not np.all(np.isfinite(val)):
+                    return True, f"{p['fn']}({p['d']}, {x_!r}) = {val}: not finite for a (barely) entangled state"
+        return False, f"{p['fn']}({p['d']}, x) finite on the scanned values"
     raise ValueError(what)
 
 
@@ -287,4 +304,31 @@ def run(chk):
             for xe in (float(lo_f(d)), float(hi_f(d)), 1.0, 0.0):
                 ok, what = replay({'what': 'finite', 'fn': fn, 'd': d, 'x': xe})
                 chk.add(f'{fn}({d}, {xe:.6g}) finite (ground, binary64)', [], ir.bconst(not ok), key=f'{fn} not finite at {xe:.6g}', replay=('c18', {'what': 'finite', 'fn': fn, 'd': d, 'x': xe}))
+    # ---- closed forms in binary64 just above the separability boundary (0*log(0), log of a value rounded outside its range): never NaN / inf
+    from symnp.scalars import F64
+    chk.stub('binary64 slice: libm log / sqrt by their C contract; the parameter is any binary64 in the stated window')
+    for fn, bound_f in (('get_Werner_eof', lambda d: 1.0 / d), ('get_Isotropic_eof', lambda d: 1.0 / (d + 1))):     # the GME forms clamp explicitly (np.maximum / np.clip)
+        for d in (2, 3) if quick else (2, 3, 4, 5):
+            b = bound_f(d)
+            xf = S.f64_var(f'xb_{fn}_{d}')
+            pre = [(xf >= b).n, (xf <= b * (1 + 2.0 ** -30)).n]
+            chk.configurations += 1
+            try:
+                paths, st = H.run_paths(lambda: getattr(ST, fn)(d, xf), pre, feas_timeout_ms=2000, max_paths=32)
+            except S.EngineError as e:
+                chk.engine_error(f'{fn} d={d} binary64', e)
+                continue
+            chk.add_path_stats(st)
+            for pi, path in enumerate(paths):
+                ap = pre + path.pc + path.facts
+                rp = ('c18', lambda m, fn=fn, d=d, b=b, xf=xf: {'what': 'finite_scan', 'fn': fn, 'd': d, 'bound': b, 'x': (float(m[xf.n.val]) if xf.n.val in m else None)})
+                fb = [{'what': 'finite_scan', 'fn': fn, 'd': d, 'bound': b, 'x': None}]
+                if path.status != 'return':
+                    chk.add(f'{fn}(d={d}) raises {type(path.value).__name__} next to the separability boundary (binary64, path {pi})', ap, ir.FALSE, key=f'{fn} raises', replay=rp)
+                    continue
+                v = H.elems(path.value)[0] if not isinstance(path.value, (int, float)) else path.value
+                if not isinstance(v, F64):
+                    continue
+                chk.add(f'{fn}(d={d}, x): no NaN / inf for every binary64 x in [bound, bound(1+2^-30)] (path {pi})', ap, ir.band(ir.bnot(v.isnan().n), ir.bnot(v.isinf().n)),
+                        key=f'{fn} not finite next to the separability boundary', replay=rp, fallback_payloads=fb, kind='probe_forall', timeout_s=120)
     chk.solve(timeout_s=60 if quick else 300)
